@@ -865,7 +865,6 @@ def c01_jobs():
     add([47], [3], pkind=101, maxb=100)   # odd vendor-data lengths
     add([45], [3], pkind=102, maxb=100)
     add([48], [3], pkind=101, maxb=48, tier="thorough", timeout=1200)
-    add([46, 24], [3, 3], pkind=102, maxb=100, tier="thorough", timeout=1200)
     add([40, 24], None, pkind=7, maxb=64, tier="thorough", timeout=1200)
     add([8, 8], None, symids=0, variant="real")
     add([8], None, prior=1)
@@ -889,7 +888,7 @@ def c01_jobs():
     for pk, l in ((1, 16), (1, 24), (2, 80), (3, 8), (3, 16), (8, 6), (8, 46)):
         add([l], None, pkind=pk, tier="thorough", tflags=1, timeout=1200)
         add([l, l], None, pkind=pk, maxb=100, tier="thorough", timeout=1200)
-    for lens in ([8], [41], [8, 41], [41, 41]):
+    for lens in ([8], [41]):   # [8, 41] and [41, 41] on the real hashtable exhaust 14 GB: mapmodel only
         add(lens, None, symids=0, variant="real", tier="thorough", timeout=1500)
     return jobs
 
